@@ -15,6 +15,9 @@ fn main() {
         let v: serde_json::Value = serde_json::from_slice(&std::fs::read(p).expect("replay file")).expect("json");
         let v2 = v.clone();
         let r = if v.get("replay").is_some() { v["replay"].clone() } else { v };
+        if r["harness"].as_str() == Some("worker-crash") {
+            std::process::exit(crash_replay(&r));
+        }
         let code = match r["harness"].as_str().unwrap_or("") {
             "c02" => c02::replay(&r),
             "c12" => c12::replay(&v2),
@@ -41,5 +44,34 @@ fn main() {
     match &args.out {
         Some(o) => res.write(o),
         None => println!("{}", serde_json::to_string_pretty(&res).unwrap()),
+    }
+}
+
+/// re-run the single case during which a worker process died, in a child process
+fn crash_replay(v: &serde_json::Value) -> i32 {
+    let args: Vec<String> = vec![
+        v["subcheck"].as_str().unwrap_or("").to_string(),
+        "--tier".into(),
+        v["tier"].as_str().unwrap_or("quick").to_string(),
+        "--seed".into(),
+        v["seed"].as_u64().unwrap_or(0).to_string(),
+        "--only-case".into(),
+        v["case"].as_u64().unwrap_or(0).to_string(),
+        "--out".into(),
+        std::env::temp_dir().join(format!("crash-replay-{}.json", std::process::id())).display().to_string(),
+    ];
+    match vcommon::child_status(&args, std::time::Duration::from_secs(600)) {
+        Ok(s) if s.success() => {
+            println!("the case completed normally");
+            0
+        }
+        Ok(s) => {
+            println!("REPRODUCED crash: the case ended with {s}");
+            1
+        }
+        Err(e) => {
+            println!("REPRODUCED hang: {e}");
+            1
+        }
     }
 }
